@@ -93,13 +93,17 @@ Definition set_armq (cn : conn) (f : fault) : conn :=
 Definition set_armp (cn : conn) (f : fault) : conn :=
   {| closed := closed cn; cch := cch cn; nparse := nparse cn; armq := armq cn; armp := f |}.
 
+(* the custom texts of the harness: text k has sql id 10 + k, except text 2, the empty string, which
+   is on the wire what Verified sends (sql id 0); RecyclingMethod::Custom("") still is a round trip *)
+Definition custom_sql (k : Z) : Z := if Z.eqb k 2 then 0 else 10 + k.
+
 (* RecyclingMethod::query *)
 Definition sql_of (m : method) : option Z :=
   match m with
   | MFast => None
   | MVerified => Some 0
   | MClean => Some 1
-  | MCustom k => Some (10 + k)
+  | MCustom k => Some (custom_sql k)
   end.
 
 (* Manager::recycle: the messages sent and the verdict *)
@@ -355,9 +359,26 @@ Definition reg_apply (f : cache -> cache) (s : state) : state :=
 (* ------------------------------------------------------------------ labels and step *)
 Inductive label :=
 | LGet | LRet (x : nat) | LTake (x : nat) | LResize (n : Z) | LClose | LRetain (ds : list bool)
-| LPrep (x : nat) (k : key) | LPrep2 (x : nat) (k : key)
+| LPrep (x : nat) (k : key) | LPrep2 (x : nat) (k : key) | LPrepVia (w : Z) (x : nat) (k : key)
 | LCClear (x : nat) | LCRemove (x : nat) (k : key) | LRClear | LRRemove (k : key)
 | LArmQ (x : nat) (f : fault) | LArmP (x : nat) (f : fault) | LArmC (f : fault) | LKill (x : nat).
+
+(* prepare_cached / prepare_typed_cached through the wrappers that share the client's cache:
+   w = 3 client.transaction(); 4 a nested transaction(); 5 transaction().savepoint(name);
+   6 build_transaction().start(). Everything is committed afterwards. The simple queries the server
+   sees: 24 START TRANSACTION (tokio-postgres starts every transaction that way), 21 COMMIT,
+   22 SAVEPOINT _, 23 RELEASE _ *)
+Definition via_pre (w : Z) : list msg :=
+  if Z.eqb w 3 then [MQuery 24]
+  else if Z.eqb w 6 then [MQuery 24]
+  else [MQuery 24; MQuery 22].
+Definition via_post (w : Z) : list msg :=
+  if Z.eqb w 3 then [MQuery 21]
+  else if Z.eqb w 6 then [MQuery 21]
+  else [MQuery 23; MQuery 21].
+Definition fault_none (f : fault) : bool := match f with FNone => true | _ => false end.
+Definition via_ready (cn : conn) : bool :=
+  negb (closed cn) && fault_none (armq cn) && fault_none (armp cn).
 
 Definition usable (s : state) (x : nat) : bool := mem x (out s) || mem x (taken s).
 Definition known (s : state) (x : nat) : bool := Nat.ltb x (length (conns s)).
@@ -384,6 +405,13 @@ Definition step (c : cfg) (s : state) (l : label) : option (state * list Z) :=
       if usable s x then
         let '(cn, ms, r1, r2) := prepare2 (getc s x) k in
         Some (logm x ms (setc s x cn), [5; oz r1; oz r2])
+      else None
+  | LPrepVia w x k =>
+      (* the same prepare through a Transaction wrapper; only on a connection without a scripted fault *)
+      if usable s x && via_ready (getc s x) then
+        let '(cn, ms, r) := prepare1 (getc s x) k in
+        Some (logm x (via_pre w ++ ms ++ via_post w) (setc s x cn),
+              match r with Some v => [3; n2z x; v] | None => [4; 0; 0] end)
       else None
   | LCClear x =>
       if usable s x then Some (setc s x (set_cch (getc s x) (cclear (cch (getc s x)))), unit_res)
